@@ -493,6 +493,12 @@ def c17_structs(tier):
                     elif second:
                         continue
                     out.append((kname, Struct(n, fs, default=1, name="S", family=f"API:{kname}")))
+                    # the same with the `debug` option. C19: a bitfield with a non-readable or array field does not compile with
+                    # `debug`; if it is accepted nevertheless, the access rules still decide the surface
+                    if not second:
+                        import dataclasses
+                        fd = [dataclasses.replace(x) for x in fs]
+                        out.append((kname + "+debug", Struct(n, fd, default=1, name="S", family=f"API:{kname}+debug", debug=True)))
     return out
 
 
